@@ -1,1 +1,135 @@
-From PV Require Import M_Codec S_Codec.
+(* C01 -- Profile serialization round-trips without loss.
+   Property theorems only (each closed by [exact] of a lemma, followed by Print Assumptions).
+   Model: M_Codec (profile/proto.go + profile/encode.go + serialize/ParseUncompressed/Copy);
+   specification: S_Codec (validity contract, NumUnit contract, the normalisation proto3 forces). *)
+From PV Require Import M_Codec S_Codec L_Codec_Wire L_Codec_Msg L_Codec_Tab L_Codec_Regroup L_Codec_Main.
+Open Scope string_scope.
+Open Scope list_scope.
+Open Scope Z_scope.
+
+(* ---- wire layer ---- *)
+Theorem varint_roundtrip : forall x rest,
+  0 <= x < two64 -> decode_varint (encode_varint x ++ rest) = Ok (x, rest).
+Proof. exact varint_roundtrip_lemma. Qed.
+Print Assumptions varint_roundtrip.
+
+Theorem varint_length : forall x, (1 <= List.length (encode_varint x) <= 10)%nat.
+Proof. exact encode_varint_length. Qed.
+Print Assumptions varint_length.
+
+Theorem field_roundtrip : forall fd rest, wf_field fd -> decode_field (enc_field fd ++ rest) = Ok (fd, rest).
+Proof. exact decode_field_enc. Qed.
+Print Assumptions field_roundtrip.
+
+(* decoding a concatenation of encoded fields = applying the decoder table left to right; the
+   fuel (= input length) of the Go loop `for len(data) > 0` never runs out *)
+Theorem message_decoding_is_a_fold : forall (S : Type) (app_ : S -> field -> res S) fs s,
+  Forall wf_field fs -> decode_message app_ (flat_map enc_field fs) s = fold_res app_ fs s.
+Proof. exact @decode_message_fields. Qed.
+Print Assumptions message_decoding_is_a_fold.
+
+(* packed repeated scalars, any length (the > 2 switch is a case split of the proofs below) *)
+Theorem packed_roundtrip : forall xs fuel,
+  Forall (fun x => 0 <= x < two64) xs -> (List.length (flat_map encode_varint xs) <= fuel)%nat ->
+  decode_varints fuel (flat_map encode_varint xs) = Ok xs.
+Proof. exact decode_varints_encode. Qed.
+Print Assumptions packed_roundtrip.
+
+(* ---- one theorem per message type ---- *)
+Theorem valuetype_message_roundtrip : forall v, wf_valuetype v -> decode_message app_valuetype (enc_valuetype v) rvt0 = Ok v.
+Proof. exact valuetype_roundtrip. Qed.
+Print Assumptions valuetype_message_roundtrip.
+Theorem label_message_roundtrip : forall l, wf_label l -> decode_message app_label (enc_label l) rlabel0 = Ok l.
+Proof. exact label_roundtrip. Qed.
+Print Assumptions label_message_roundtrip.
+Theorem sample_message_roundtrip : forall s, wf_sample s -> decode_message app_sample (enc_sample s) rsample0 = Ok s.
+Proof. exact sample_roundtrip. Qed.
+Print Assumptions sample_message_roundtrip.
+Theorem mapping_message_roundtrip : forall m, wf_mapping m -> decode_message app_mapping (enc_mapping m) rmapping0 = Ok m.
+Proof. exact mapping_roundtrip. Qed.
+Print Assumptions mapping_message_roundtrip.
+Theorem line_message_roundtrip : forall l, wf_line l -> decode_message app_line (enc_line l) rline0 = Ok l.
+Proof. exact line_roundtrip. Qed.
+Print Assumptions line_message_roundtrip.
+Theorem location_message_roundtrip : forall l, wf_location l -> decode_message app_location (enc_location l) rlocation0 = Ok l.
+Proof. exact location_roundtrip. Qed.
+Print Assumptions location_message_roundtrip.
+Theorem function_message_roundtrip : forall f, wf_function f -> decode_message app_function (enc_function f) rfunction0 = Ok f.
+Proof. exact function_roundtrip. Qed.
+Print Assumptions function_message_roundtrip.
+Theorem profile_message_roundtrip : forall r, wf_rprofile r -> unmarshal (enc_profile r) = Ok (canon_rprofile r).
+Proof. exact unmarshal_enc_profile. Qed.
+Print Assumptions profile_message_roundtrip.
+
+(* ---- string interning, id resolution, label regrouping with unit padding ---- *)
+Theorem post_decode_inverts_pre_encode : forall p r,
+  valid_b p = true -> units_wf_b p = true -> pre_encode p = Ok r -> post_decode r = Ok (normalize p).
+Proof. exact post_pre_lemma. Qed.
+Print Assumptions post_decode_inverts_pre_encode.
+
+(* ---- the property ---- *)
+(* serialization cannot panic (units[i] index, nil location) on a valid profile that honours the
+   documented NumUnit length contract *)
+Theorem serialize_never_panics : forall p, valid_b p = true -> units_wf_b p = true -> exists r, pre_encode p = Ok r.
+Proof. exact serialize_ok_lemma. Qed.
+Print Assumptions serialize_never_panics.
+
+(* [size_ok r]: every length prefix and string-table index fits 64/63 bits (always true in Go,
+   where they are ints); it is a statement about sizes only *)
+Theorem write_parse_roundtrip : forall p r,
+  valid_b p = true -> units_wf_b p = true -> pre_encode p = Ok r -> size_ok r ->
+  serialize p = Ok (enc_profile r) /\ parse_uncompressed (enc_profile r) = Ok (normalize p).
+Proof. exact write_parse_roundtrip_lemma. Qed.
+Print Assumptions write_parse_roundtrip.
+
+Theorem copy_is_normalize : forall p r,
+  valid_b p = true -> units_wf_b p = true -> pre_encode p = Ok r -> size_ok r -> copy p = Ok (normalize p).
+Proof. exact copy_lemma. Qed.
+Print Assumptions copy_is_normalize.
+
+(* ---- non-vacuity: a profile with a 3-element (packed) and a 2-element value list, a sparse id
+   2^63+5, string labels incl. an empty value, numeric labels with mixed unit padding ---- *)
+Definition ex_profile : profile :=
+  {| p_sampletype := [{| vt_type := "cpu"; vt_unit := "ns" |}; {| vt_type := "n"; vt_unit := "count" |}; {| vt_type := "x"; vt_unit := "" |}];
+     p_defaultsampletype := "cpu";
+     p_sample := [ {| s_loc := [9223372036854775813; 2; 9223372036854775813]; s_val := [5; -7; 0];
+                      s_label := [("k", ["v"; ""; "w"])];
+                      s_numlabel := [("bytes", [0; 10; 0]); ("n", [1; 2])];
+                      s_numunit := [("bytes", [""; "kb"; ""])] |};
+                   {| s_loc := [2; 2]; s_val := [-9223372036854775808; 9223372036854775807; 1];
+                      s_label := []; s_numlabel := []; s_numunit := [] |} ];
+     p_mapping := [{| m_id := 7; m_start := 4096; m_limit := 8192; m_offset := 0; m_file := "/bin/x"; m_buildid := "ab";
+                      m_hasfn := true; m_hasfile := false; m_hasline := false; m_hasinline := true |}];
+     p_location := [{| l_id := 9223372036854775813; l_mapping := 7; l_addr := 4100;
+                       l_lines := [{| ln_fn := 3; ln_line := 10; ln_col := 2 |}; {| ln_fn := 3; ln_line := 11; ln_col := 0 |}];
+                       l_folded := false |};
+                    {| l_id := 2; l_mapping := 0; l_addr := 0; l_lines := [{| ln_fn := 3; ln_line := 0; ln_col := 0 |}]; l_folded := true |}];
+     p_function := [{| f_id := 3; f_name := "main"; f_sysname := "main"; f_file := "m.go"; f_startline := 1 |}];
+     p_comments := ["c1"; "c2"; "c1"]; p_docurl := ""; p_dropframes := "a|b"; p_keepframes := "";
+     p_timenanos := 12; p_durationnanos := 0; p_periodtype := None; p_period := 100 |}.
+
+Example ex_hypotheses :
+  valid_b ex_profile = true /\ units_wf_b ex_profile = true /\
+  exists r, pre_encode ex_profile = Ok r /\ size_ok r.
+Proof.
+  split; [vm_compute; reflexivity|]. split; [vm_compute; reflexivity|].
+  eexists. split; [vm_compute; reflexivity|].
+  unfold size_ok, sized, sizes_sample, sizes_location.
+  cbn [rp_strings rp_sample rp_location rp_sampletype rp_mapping rp_function rp_periodtype rp_comment].
+  repeat match goal with
+         | |- _ /\ _ => split
+         | |- Forall _ (rs_label _) => cbn [rs_label]
+         | |- Forall _ (rloc_lines _) => cbn [rloc_lines]
+         | |- Forall _ [] => apply Forall_nil
+         | |- Forall _ (_ :: _) => apply Forall_cons
+         | |- True => exact I
+         | |- (_ < _)%Z => vm_compute; reflexivity
+         end.
+Qed.
+
+Example ex_roundtrip :
+  match serialize ex_profile with
+  | Ok b => parse_uncompressed b = Ok (normalize ex_profile) /\ normalize ex_profile <> ex_profile
+  | _ => False
+  end.
+Proof. vm_compute. split; [reflexivity|discriminate]. Qed.
